@@ -16,6 +16,8 @@ class Runtime:
         self.fail = {}         # slugname -> remaining failures to inject
         self.hooks = []        # callables(task) run inside compute (C18: logging / run-info emitters)
         self.salt_seq = False  # C07: embed the run's sequence number into the value
+        self.gen_messages = False  # C18: generator bodies log while being consumed
+        self.mock_values = {}      # C19: values returned by the source tasks that stand in for mocks in the real chain
         self.classes = {}
 
     def reset(self):
@@ -24,6 +26,7 @@ class Runtime:
         self.fail.clear()
         self.hooks.clear()
         self.salt_seq = False
+        self.gen_messages = False
 
 
 RT = Runtime()
@@ -121,11 +124,13 @@ def encode(kind, d, task):
     if kind == 'frame':
         return pd.DataFrame({'v': [d], 'w': [1.5]})
     if kind == 'generator':
-        return (x for x in [d, {'k': [1, None]}])
+        return _logging_gen(task, [d, {'k': [1, None]}])
     if kind == 'lazy':
-        return (x for x in [d, 'tail'])
+        return _logging_gen(task, [d, 'tail'])
     if kind == 'gen_empty':
         return (x for x in [])
+    if kind == 'mock':
+        return RT.mock_values[task.slugname]
     if kind == 'list_numpy':
         b = bytes.fromhex(d)
         return [np.array(list(b[:4]), dtype='uint8'), np.array(list(b[4:]), dtype='uint8')]
@@ -140,6 +145,19 @@ def encode(kind, d, task):
         obj.tcv_digest = d
         return obj
     raise ValueError(kind)
+
+
+def _logging_gen(task, items):
+    """A generator body that logs while it is being consumed (C18: such messages belong to the run's log)."""
+    seq = RT.seq
+    emit = RT.gen_messages
+
+    def gen():
+        if emit:
+            task.logger.info(f'tcv|{seq}|gen|{task.slugname}')
+        for x in items:
+            yield x
+    return gen()
 
 
 def compute(task, params, inputs):
